@@ -19,6 +19,8 @@ def levels(tier):
              "ks": [1, 2, 3, 5], "depths": [None, 0, 1, 2]},
             {"name": "n2", "n": 2, "alphabet": ["links", "we"], "links_batch": 1, "defaults": ["domain"], "pool": [POOL4[0], POOL4[1], POOL4[3]],
              "ks": [1, 2], "depths": [None, 0]},
+            {"name": "nested-prefixes", "n": 1, "prelude": [["page", 0, False], ["links", [[3, 2], [0, 2], [3, 1], [2, 0]]], ["we", [[0, 3], [1, 4]]]],
+             "alphabet": ["links", "page"], "links_batch": 1, "defaults": ["never"], "ks": [1, 2, 3], "depths": [None, 1]},
         ]
     return [
         {"name": "tpl-n2", "n": 2, "prelude": TPL, "alphabet": ["links", "page", "we", "addprefix"], "links_batch": 1, "defaults": ["never", "domain"],
